@@ -18,6 +18,20 @@ def clone(lp):
     return d
 
 
+def scale_factor(r):
+    """a positive rational multiplier: mostly tame, sometimes far outside the double-precision tolerances (the property says ANY positive rational)"""
+    k = r.random()
+    if k < .7:
+        return F(r.randint(1, 9), r.randint(1, 7))
+    if k < .8:
+        return F(1, 10 ** r.randint(6, 20))
+    if k < .88:
+        return F(1, 2 ** r.randint(30, 60))
+    if k < .95:
+        return F(10 ** r.randint(6, 15))
+    return F(2 ** 61 - 1, 10 ** 9 + 7)
+
+
 def transform(lp, r):
     """returns (lp2, name, law) with law = dict(neg=0/1, off=Fraction): val(lp) = sign*val(lp2) + off"""
     kind = r.choice(["rowperm", "colperm", "rowscale_pos", "rowscale_neg", "colscale", "shift", "objneg", "duprow", "redundant", "eqsplit"])
@@ -35,12 +49,12 @@ def transform(lp, r):
             t[k] = [lp[k][j] for j in perm]
         t["A"] = [sorted((inv[j], v) for j, v in row) for row in lp["A"]]
     elif kind == "rowscale_pos" and m:
-        i = r.randrange(m); lam = F(r.randint(1, 9), r.randint(1, 7))
+        i = r.randrange(m); lam = scale_factor(r)
         t["A"][i] = [(j, v * lam) for j, v in lp["A"][i]]
         t["rhs"][i] = lp["rhs"][i] * lam
         t["range"][i] = lp["range"][i] * lam
     elif kind == "rowscale_neg" and m:
-        i = r.randrange(m); lam = -F(r.randint(1, 9), r.randint(1, 7))
+        i = r.randrange(m); lam = -scale_factor(r)
         t["A"][i] = [(j, v * lam) for j, v in lp["A"][i]]
         s = lp["sense"][i]
         if s == "L":
@@ -53,7 +67,7 @@ def transform(lp, r):
             t["rhs"][i] = (lp["rhs"][i] + lp["range"][i]) * lam
             t["range"][i] = lp["range"][i] * (-lam)
     elif kind == "colscale" and n:
-        j = r.randrange(n); lam = F(r.randint(1, 9), r.randint(1, 7)) * r.choice([1, -1])     # x_j = lam * x'_j
+        j = r.randrange(n); lam = scale_factor(r) * r.choice([1, -1])     # x_j = lam * x'_j
         t["A"] = [[(c, v * lam if c == j else v) for c, v in row] for row in lp["A"]]
         t["obj"][j] = lp["obj"][j] * lam
         lo, up = lp["lo"][j], lp["up"][j]
